@@ -78,6 +78,7 @@ type Engine struct {
 	stopEarly               bool // a counterexample was confirmed natively: the exploration ends
 	regMu                   sync.Mutex
 	registered              map[string][]types.Type // interface type -> registered implementation types
+	regOnce sync.Mutex
 	regDone                 bool
 }
 
@@ -1174,7 +1175,26 @@ func (fr *frame) slice(in *ssa.Slice) value {
 			h, ok2 = asConcreteInt(hi)
 		}
 		if !ok1 || !ok2 {
-			panic(pathEnd{kind: "unsupported", msg: "symbolic slice bounds"})
+			// symbolic bounds: the out-of-range condition is a panic obligation like any other; in range, the bounds
+			// are decided by forking over the (few) values the capacity allows
+			capT := BVConstI(int64(cap(x)), 64)
+			hiT := hi
+			if hiT == nil {
+				hiT = BVConstI(int64(len(x)), 64)
+			}
+			st.mayPanic(Or(BVCmp("bvugt", hiT, capT), BVCmp("bvugt", lo, hiT)), "slice bounds out of range", fr, in.Pos())
+			conc := func(t *Term) int {
+				if c, ok := asConcreteInt(t); ok {
+					return c
+				}
+				for c := 0; c <= cap(x); c++ {
+					if st.decide(Eq(t, BVConstI(int64(c), 64))) {
+						return c
+					}
+				}
+				panic(pathEnd{kind: "dead"})
+			}
+			l, h = conc(lo), conc(hiT)
 		}
 		if l < 0 || h > cap(x) || l > h {
 			panic(pathEnd{kind: "panic", msg: "slice bounds out of range in " + fr.fn.String()})
@@ -1283,7 +1303,7 @@ func (fr *frame) invoke(fn value, args []value, cc *ssa.CallCommon) value {
 			if !ok || ip.t == nil {
 				return nil
 			}
-			it := ip.t.(*types.Pointer).Elem()
+			it := types.Unalias(types.Unalias(ip.t).(*types.Pointer).Elem()) // (an alias names the same interface as its target)
 			for _, im := range args[2].([]value) {
 				if x, ok := im.(iface); ok && x.t != nil {
 					st.e.regMu.Lock()
@@ -1465,25 +1485,36 @@ func zeroOrNil(t types.Type) value {
 // ensureRegistry runs orbiter's own RegisterInterfaces functions (attribute types) on a recording registry, once.
 func (st *State) ensureRegistry() {
 	e := st.e
+	// (other workers wait until the registration is complete: a half-filled registry would refuse valid payloads)
+	e.regOnce.Lock()
+	defer e.regOnce.Unlock()
+	if e.regDone {
+		return
+	}
+	defer func() { e.regDone = true }()
 	e.regMu.Lock()
-	done := e.regDone
-	e.regDone = true
 	if e.registered == nil {
 		e.registered = map[string][]types.Type{}
 	}
 	e.regMu.Unlock()
-	if done {
-		return
-	}
 	reg := iface{t: registryType, v: &opaque{tag: "registry"}}
-	for _, path := range []string{orb + "/types/controller/action", orb + "/types/controller/forwarding"} {
-		for _, p := range e.prog.AllPackages() {
-			if p.Pkg.Path() == path {
-				if f := p.Func("RegisterInterfaces"); f != nil {
-					st.callFunction(nil, f, []value{reg}, nil)
+	// the module's complete registration (types.RegisterInterfaces: attribute interfaces, the components' transaction
+	// messages as sdk.Msg, the controllers' attribute types), so that a type known for ONE interface is known to the
+	// model too; the two attribute packages alone if the top-level function is not there
+	paths := []string{orb + "/types"}
+	found := false
+	for round := 0; round < 2 && !found; round++ {
+		for _, path := range paths {
+			for _, p := range e.prog.AllPackages() {
+				if p.Pkg.Path() == path {
+					if f := p.Func("RegisterInterfaces"); f != nil {
+						found = true
+						st.callFunction(nil, f, []value{reg}, nil)
+					}
 				}
 			}
 		}
+		paths = []string{orb + "/types/controller/action", orb + "/types/controller/forwarding"}
 	}
 }
 
@@ -1512,7 +1543,7 @@ func (st *State) unpackAny(anyV, target value) value {
 	if !ok || tp.t == nil {
 		return newErr(st, "UnpackAny expects a pointer")
 	}
-	it := tp.t.(*types.Pointer).Elem()
+	it := types.Unalias(types.Unalias(tp.t).(*types.Pointer).Elem())
 	st.e.regMu.Lock()
 	impls := st.e.registered[it.String()]
 	st.e.regMu.Unlock()
